@@ -75,7 +75,7 @@ class Ctx:
     def violation(self, kind, detail, case):
         self.violations_total += 1
         self.count(f"violation.{kind}")
-        v = dict(kind=kind, detail=str(detail)[:4000], case=case, tz=os.environ.get("TZ"), hashseed=int(os.environ.get("PYTHONHASHSEED") or 0),
+        v = dict(kind=kind, detail=str(detail)[:4000], case=case, tz=os.environ.get("TZ"), hashseed=int(os.environ.get("PYTHONHASHSEED") or 0), logmode=os.environ.get("AWVERIF_LOG"),
                  wdir=os.path.basename(os.environ.get("AWVERIF_TMP", "")) or None)
         key = kind
         if self.classify:
@@ -159,11 +159,24 @@ def default_worker(mod, ctx):
 
 def main():
     a = json.loads(sys.argv[1])
-    logging.disable(logging.CRITICAL)
+    # what the process logs is nobody's concern here, but WHETHER records are built and formatted is part of the environment:
+    # a third of the workers run with logging disabled, a third with every record (DEBUG) built, formatted and thrown away,
+    # a third with the library default (WARNING)
+    logmode = os.environ.get("AWVERIF_LOG", "off")
+    if logmode == "off":
+        logging.disable(logging.CRITICAL)
+    else:
+        h = logging.StreamHandler(open(os.devnull, "w"))
+        h.setFormatter(logging.Formatter("%(asctime)s [%(levelname)s] %(name)s:%(lineno)s %(funcName)s: %(message)s"))
+        root = logging.getLogger()
+        root.handlers[:] = [h]
+        root.setLevel(logging.DEBUG if logmode == "debug" else logging.WARNING)
+        logging.raiseExceptions = False
     import warnings
     warnings.simplefilter("ignore")
     ctx = Ctx(a)
     ctx.count("process_time_zone." + (os.environ.get("TZ") or "unset"))
+    ctx.count("process_logging." + logmode)
     lines = {}
     try:
         assert_repo_under_test()
